@@ -204,14 +204,17 @@ static uintptr_t parseRef(MPT_INTERFACE(metatype) *mt)
 static MPT_INTERFACE(metatype) *parseClone(const MPT_INTERFACE(metatype) *mt)
 {
 	MPT_STRUCT(parseIterator) *it = MPT_baseaddr(parseIterator, mt, _mt);
-	const char *ptr;
+	MPT_INTERFACE(metatype) *copy;
 	
+	/* text is cut behind the current element while its end is saved */
 	if (it->restore) {
-		ptr = it->restore;
-	} else {
-		ptr = it->val;
+		*it->restore = it->save;
 	}
-	return mpt_iterator_string(ptr, (char *) (it + 1));
+	copy = mpt_iterator_string(it->val, (char *) (it + 1));
+	if (it->restore) {
+		*it->restore = 0;
+	}
+	return copy;
 }
 
 /*!
